@@ -263,8 +263,10 @@ Proof.
   rewrite H. rewrite andb_true_r.
   (* quirks *)
   apply quirks_eqb_eq in H0. unfold conf_quirks.
-  apply forallb_forall. intros q _. rewrite <- H0, qmem_spec_quirks.
-  rewrite eqb_reflx. apply orb_true_r.
+  apply forallb_forall. intros q _.
+  destruct (quirk_applies (seg_ver g) q) eqn:AP; [|reflexivity]. cbn [negb orb].
+  rewrite <- qmem_spec_quirks, H0. unfold sig_quirks_for. rewrite qmem_filter, AP. cbn [andb].
+  apply eqb_reflx.
 Qed.
 
 (* ================================================================ (L) live + conforms => distance 0 *)
@@ -334,12 +336,36 @@ Proof.
   assert (v = 0) by lia. subst. destruct (EX LZ) as [x X]. discriminate.
 Qed.
 
-Lemma in_live_versions s g : seg_wf g -> version_inst_b (t_version s) (seg_ver g) = true -> kv6 s g = false ->
+Lemma in_live_versions s g : seg_wf g -> version_inst_b (t_version s) (seg_ver g) = true ->
   In (seg_ver g) (live_versions s).
 Proof.
-  intros (V & _) VI K. unfold live_versions. apply filter_In. split.
-  - unfold version_inst_b in VI. destruct V as [V|V]; rewrite V in *; destruct (t_version s); cbn in *; try discriminate; tauto.
-  - unfold kv6 in K. apply negb_false_iff in K. exact K.
+  intros (V & _) VI. unfold live_versions.
+  unfold version_inst_b in VI. destruct V as [V|V]; rewrite V in *; destruct (t_version s); cbn in *; try discriminate; tauto.
+Qed.
+
+(* the signature's quirks that apply to the packet's version are exactly the quirks that hold *)
+Lemma conf_quirks_for s g : seg_wf g -> quirks_live (t_quirks s) = true -> conf_quirks (t_quirks s) g = true ->
+  spec_quirks g (seg_items g) = sig_quirks_for (seg_ver g) (t_quirks s).
+Proof.
+  intros (V & TT & V6 & V4) QL CQ. symmetry. unfold sig_quirks_for. apply sinc_ext.
+  - apply sinc_filter. exact QL.
+  - apply sinc_filter. reflexivity.
+  - intros q. rewrite <- !qmem_In, qmem_spec_quirks, qmem_filter.
+    unfold conf_quirks in CQ. rewrite forallb_forall in CQ. specialize (CQ q (canonical_all q)).
+    apply orb_true_iff in CQ. destruct CQ as [NA|EQ].
+    + apply negb_true_iff in NA. rewrite NA. cbn [andb].
+      assert (NH : quirk_holds g (seg_items g) q = false).
+      { unfold quirk_applies in NA. destruct V as [VV|VV]; unfold seg_ver in *; rewrite VV in NA.
+        - destruct q; try discriminate. unfold quirk_holds. rewrite (V4 VV). reflexivity.
+        - destruct (V6 VV) as [DF MB]. destruct q; try discriminate; unfold quirk_holds; rewrite ?DF, ?MB, ?VV; reflexivity. }
+      rewrite NH. split; discriminate.
+    + apply eqb_prop in EQ. rewrite EQ.
+      destruct (quirk_applies (seg_ver g) q) eqn:AP; cbn [andb]; [tauto|].
+      assert (NH : quirk_holds g (seg_items g) q = false).
+      { unfold quirk_applies in AP. destruct V as [VV|VV]; unfold seg_ver in *; rewrite VV in AP.
+        - destruct q; try discriminate. unfold quirk_holds. rewrite (V4 VV). reflexivity.
+        - destruct (V6 VV) as [DF MB]. destruct q; try discriminate; unfold quirk_holds; rewrite ?DF, ?MB, ?VV; reflexivity. }
+      rewrite NH. tauto.
 Qed.
 
 Lemma window_live_zero s ver w mss ts :
@@ -388,10 +414,10 @@ Proof.
 Qed.
 
 Theorem live_zero (k : tkind) (s : tcp_sig) (g : segment) :
-  seg_wf g -> live_tcp_b s = true -> conforms_seg_b k s g = true -> kv6 s g = false -> K5 g = false ->
+  seg_wf g -> live_tcp_b s = true -> conforms_seg_b k s g = true -> K5 g = false ->
   tcp_distance s (spec_sig g) = Some 0.
 Proof.
-  intros WF LV C KV K5F. assert (WF' := WF). destruct WF' as (V & TT & V6 & V4).
+  intros WF LV C K5F. assert (WF' := WF). destruct WF' as (V & TT & V6 & V4).
   unfold live_tcp_b in LV. repeat (apply andb_true_iff in LV; destruct LV as [LV ?]).
   rename H into WL, H0 into ZW, H1 into ZM, H2 into QL, H3 into LL. rename LV into TL.
   unfold conforms_seg_b in C. cbv zeta in C. repeat (apply andb_true_iff in C; destruct C as [C ?]).
@@ -401,24 +427,8 @@ Proof.
   apply olayout_eqb_eq in CL.
   rewrite tcp_distance_sum.
   destruct (spec_sig_fields g) as (F1 & F2 & F3 & F4 & F5 & F6 & F7 & F8 & F9).
-  (* quirks: the signature's list is the canonical listing of the quirks that hold *)
-  assert (QE : spec_quirks g (seg_items g) = t_quirks s).
-  { symmetry. apply sinc_ext.
-    - exact QL.
-    - apply sinc_filter. reflexivity.
-    - intros q. rewrite <- !qmem_In, qmem_spec_quirks.
-      unfold conf_quirks in CQ. rewrite forallb_forall in CQ. specialize (CQ q (canonical_all q)).
-      apply orb_true_iff in CQ. destruct CQ as [NA|EQ].
-      + apply negb_true_iff in NA.
-        assert (NS : qmem q (t_quirks s) = false).
-        { unfold kv6 in KV. apply negb_false_iff in KV. rewrite forallb_forall in KV.
-          destruct (qmem q (t_quirks s)) eqn:QM; [|reflexivity]. apply qmem_In in QM. rewrite (KV _ QM) in NA. discriminate. }
-        assert (NH : quirk_holds g (seg_items g) q = false).
-        { unfold quirk_applies in NA. destruct V as [VV|VV]; unfold seg_ver in *; rewrite VV in NA.
-          - destruct q; try discriminate. unfold quirk_holds. rewrite (V4 VV). reflexivity.
-          - destruct (V6 VV) as [DF MB]. destruct q; try discriminate; unfold quirk_holds; rewrite ?DF, ?MB, ?VV; reflexivity. }
-        rewrite NS, NH. tauto.
-      + apply eqb_prop in EQ. rewrite EQ. tauto. }
+  (* quirks: the part of the signature's list that applies to the packet's version is the listing of the quirks that hold *)
+  pose proof (conf_quirks_for s g WF QL CQ) as QE.
   assert (DM : tcp_decisive_mismatch_b s (spec_sig g) = false).
   { unfold tcp_decisive_mismatch_b. rewrite F1, F7, F8, F9, CV, CL, QE, CP.
     rewrite (eqb_refl_of _ olayout_eqb_eq), (eqb_refl_of _ quirks_eqb_eq). reflexivity. }
@@ -427,7 +437,7 @@ Proof.
   assert (TSE : has_ts (seg_items g) = layout_ts (t_olayout s)).
   { rewrite <- CL. unfold layout_ts, spec_layout. symmetry. apply has_ts_layout. exact OB. }
   rewrite (window_live_zero s (seg_ver g) (th_win (sg_tcp g)) (spec_mss (seg_items g)) (has_ts (seg_items g)) WL
-             (in_live_versions s g WF CV KV) TSE CM CW).
+             (in_live_versions s g WF CV) TSE CM CW).
   cbn [obind]. f_equal.
   unfold c_olen, c_mss, c_wscale. rewrite F3, F4, F6, CO.
   rewrite (optzero_inst _ _ _ _ ZM CM) by (rewrite <- CL; apply layout_mss_some; exact OB).
@@ -450,7 +460,7 @@ Proof.
   intros EA LV C KN. unfold conforms_tcp, conforms_tcp_b in C. unfold known_tcp_traffic in KN.
   destruct (seg_of x) as [g|] eqn:SG; [|discriminate].
   pose proof (seg_of_wf x g SG) as WF.
-  unfold known_tcp13 in KN. apply orb_false_iff in KN. destruct KN as [KC KV].
+  unfold known_tcp13 in KN. rename KN into KC.
   assert (R : conf_role k g = true).
   { destruct (conf_role k g) eqn:RR; [reflexivity|]. unfold conforms_seg_b in C. cbv zeta in C. rewrite RR in C. discriminate. }
   assert (K5F : K5 g = false).
@@ -459,7 +469,7 @@ Proof.
   { destruct x as [p|p]; cbn [seg_of tcp_out_of] in *; [apply obs_v4 | apply obs_v6]; assumption. }
   destruct OBS as (o & OUT & SY & SA).
   unfold reach_tcp. rewrite (reach_of_obs db k _ o (spec_sig g) OUT SY SA).
-  pose proof (live_zero k s g WF LV C KV K5F) as D0.
+  pose proof (live_zero k s g WF LV C K5F) as D0.
   assert (IN : In (li, si, s) (positions (tcp_table db k))) by (apply find_some in EA; tauto).
   destruct (first_zero_exists tcp_distance (tcp_table db k) (spec_sig g) (li, si, s) IN D0) as [[[lj sj] t] FZ].
   rewrite tcp_find_best_match_is_scan by (apply spec_sig_concrete; exact WF).
